@@ -175,7 +175,7 @@ Theorem C02_measure_decreases : forall c s l s',
   sd s <> SdNot -> is_system l = true -> step c s l = Some s' -> mu c s' < mu c s.
 Proof. exact mu_system_step. Qed.
 
-(* ... and a step of the environment increases it by at most W c + 3 = 2 * nrun c + 6. *)
+(* ... and a step of the environment increases it by at most W c + 3 = 2 * nrun c + 7. *)
 Theorem C02_measure_env : forall c s l s',
   is_system l = false -> step c s l = Some s' -> mu c s' <= mu c s + W c + 3.
 Proof. exact mu_env_step. Qed.
